@@ -148,7 +148,13 @@ class Gen:
             v = self.val(vty) if r.random() < 0.7 else self.wrong(vty)
             self.op(f'set {i} {key()} {v}')
         elif x < 0.60: self.op(f'mem {i} {key()}')
-        elif x < 0.82: self.op(f'rem {i} {key()}')
+        elif x < 0.77 or (x < 0.82 and o['kind'] != 'tab'): self.op(f'rem {i} {key()}')
+        elif x < 0.82:
+            # get with an address inside the table's own slot array as the key: the key object / the value object of the slot that holds
+            # <k> (bad-op when no slot does).  Since fix bc940bb only the former takes Table_Get's shortcut; the value object is cast and
+            # looked up like any argument (ValueError when the value type is not the key type, KeyError when it is not a key)
+            k = self.val(kty) if kty == 'str' else f'i{r.randrange(8)}'
+            self.op(f'{"getv" if r.random() < 0.75 else "getk"} {i} {k}')
         elif x < 0.90: self.op(f'resize {i} {r.choice([0, 1, 2, 3, 5, 8, 20, 60])}')
         elif x < 0.93: self.op(f'len {i}')
         else: self.op(r.choice([f'push {i} i1', f'pop {i}', f'pushat {i} i1 i0', f'popat {i} i0', f'concat {i} i1', f'append {i} i1', f'print {i} 0 Lq |']))
@@ -410,7 +416,7 @@ class C12(Spec):
                  'and the declaration matrix are regenerated from the sources on every run and are what theorems are stated about; '
                  'white-box differential check of the model against the real library; '
                  'independent reference + before/after dump oracle in C under ASan/UBSan, risky calls probed in a forked child')
-    level_text = ('Theorems over the executable model lean/Cello/Fail.lean (66, no sorry): C12_failure_atomic — for every store of objects (Array, List, '
+    level_text = ('Theorems over the executable model lean/Cello/Fail.lean (68, no sorry): C12_failure_atomic — for every store of objects (Array, List, '
                   'heap and stack Tuple, Table, Tree, heap/stack/static String, Range, Slice, Zip, plain Int/Plain values), every object and every '
                   'operation outside the territories of the known findings, an operation that raises leaves the observable state of every object '
                   'unchanged (C12_failure_atomic_exact: the very same store, unless the object is a slot-less Table or a Slice); per type '
@@ -437,7 +443,8 @@ class C12(Spec):
                   'operation histories on both and comparing result, exception type and a white-box dump after every operation; an independent C '
                   'reference and a before/after dump oracle run on the real library under ASan/UBSan. Deviations the code really has are modelled '
                   'as they are, proved as *_refuted theorems on concrete witnesses and listed as known findings; defects repaired by a fix: commit '
-                  '(Range_Get step 0 / overflow, String_Rem of a non-String) keep their *_refuted theorem as a statement about an explicit OLD '
+                  '(Range_Get step 0 / overflow, String_Rem of a non-String, Table_Get answering every address inside its slot array — '
+                  'C12_table_get_slot_address: the key / value object of a slot passed as the key is validated like any other argument) keep their *_refuted theorem as a statement about an explicit OLD '
                   'variant of the model function (Lemmas/FailOld.lean) next to what the current model does on the same witness.')
     level_note = ('Trusted: Lean kernel; the hand-written model lean/Cello/Fail.lean (validated by the correspondence, which is testing); harness and '
                   'driver; libc. Not covered: allocation failure (OutOfMemoryError paths), Float/File/Thread objects, iteration of views (C11), '
@@ -449,7 +456,8 @@ class C12(Spec):
             'plus an exhaustive index sweep (-n-2..n+2 and int64 limits, sizes 0..4, get/set/pop_at/push_at on the three sequence types) and a '
             'Range/Slice sweep (27 ranges: steps 0, ±1..±3, ±2^62, INT64_MAX, fields at the int64 limits; indices at both ends of [-len, len), '
             '±2^63 and around INT64_MAX/|step| and (INT64_MAX-start)/step; slices with step 0 / ±10^6; rem of Int/Plain/NULL on heap/stack/static '
-            'Strings). Ranges of the histories take any int64 start/stop/step for which Range_Len does not overflow (step 0: ~15%). '
+            'Strings). Table histories pass the key object / the value object of an occupied slot of the table itself as the key of get (getk / getv: '
+            'territory of the Table_Get address shortcut repaired by fix bc940bb). Ranges of the histories take any int64 start/stop/step for which Range_Len does not overflow (step 0: ~15%). '
             'Nested-container histories (family nest): container sources, every kind of bad index, refused sources pushed onto Lists of containers; '
             'junk objects (freed-object / foreign magic number) receive every entry point and their bytes are compared before/after. '
             'Each op is run on the real library (first in a forked child when a failure is expected), result + white-box dump compared with the Lean '
@@ -501,7 +509,7 @@ class C12(Spec):
             acc['ops'] = acc.get('ops', 0) + 1
             res = o[2:].split(' ')[0]
             w = op.split(' ')
-            # the territory that was excluded while Range_Get / String_Rem were known findings
+            # the territory that was excluded while Range_Get / String_Rem / Table_Get (address shortcut) were known findings
             if w[0] == 'new' and len(w) >= 3 and res == 'new':
                 if w[2] in ('rng', 'slc'):
                     try: steps[w[1]] = int(w[-1])
@@ -515,6 +523,7 @@ class C12(Spec):
                 except ValueError: pass
             elif w[0] == 'rem' and len(w) == 3 and w[1] in strs and w[2][:1] in ('i', 'p') and res != 'bad-op':
                 acc['string_rem_non_string'] = acc.get('string_rem_non_string', 0) + 1
+            if w[0] in ('getk', 'getv') and res != 'bad-op': acc['table_get_slot_address'] = acc.get('table_get_slot_address', 0) + 1
             if ' | N' in o and res != 'new': acc['nested_ops'] = acc.get('nested_ops', 0) + 1
             if ' | J ' in o and res != 'new': acc['bad_magic_ops'] = acc.get('bad_magic_ops', 0) + 1
             key = res if res.startswith('raised:') else res.split(':')[0]
